@@ -10,6 +10,13 @@ androguard's Analysis must report exactly that:
                added DEX; otherwise it is external and ONE stub object is shared by all call sites of that key
   class_xref   ClassAnalysis.get_xref_to/from restricted to invoke kinds == {(other class, REF_TYPE(op), method, offset)}
   callgraph    get_call_graph() has the edge (caller, callee) iff a callee is reported
+History part (a share of the generated cases, drawn with the case): the Analysis is built step by step and
+get_call_graph() is requested several times during its life, with a small pool of filter argument sets (class / method
+name / descriptor / access-flag regexes, no_isolated): before create_xref(), after it, repeatedly with identical filters,
+and after the caller removed nodes/edges from (cleared, added an edge to) a graph it was handed earlier. Every graph
+that is handed out must satisfy the callgraph clause *at the time of the request*: before create_xref() no callee is
+reported, so there is no edge; afterwards the edges are the model's (caller, callee) pairs whose caller passes the
+filters. Nothing is asserted about a graph after the caller has modified it. Buckets 'history:callgraph:<shape>:...'.
 Shipped part: the same clauses over shipped DEX/APK files, the call-site list being read from the raw code units with
 vf.gen.dalvik_spec (indices resolved by the DEX parser, not by analysis.py).
 
@@ -17,6 +24,12 @@ Open finding array-receiver: an invoke whose method reference names an array cla
 re-attributed to the element class. A mismatch that is *exactly* what that defect model predicts goes to a
 '<clause>:array-receiver' bucket; the main generator shards leave array receivers out (counted), dedicated shards keep them.
 """
+import re
+import traceback
+from collections import Counter
+
+from hypothesis import strategies as st
+
 from vf.gen import xrefgen as X
 from vf.checks import _xref as A
 
@@ -25,6 +38,9 @@ LEVEL = 'exploration'
 RULE = ('generated: xrefgen model (2..5 classes over 1..4 DEX files; bodies of 1..13 reference instructions drawn from all '
         '10 invoke opcodes x {own class, other class, other DEX, external, undefined/inherited, array receiver} plus '
         'field/string/type instructions and fillers) -> DEX bytes -> Analysis; every xref getter compared with the model. '
+        'roughly half of the generated cases also carry a drawn call-graph history (get_call_graph requests with 1..2 filter '
+        'argument sets before / after create_xref, repeated, and after the caller modified a graph it was handed); every '
+        'graph handed out is checked against the clause as of the time of the request. '
         'shipped: every method of the shipped DEX/APK files, call sites read from the raw code units. non-trivial = >=1 '
         'internal callee, >=1 external callee and one callee called from one method at >=2 offsets; distinct = model')
 ASSUMPTIONS = ['vf/gen/dexgen.py writes well-formed DEX files; vf/gen/asm.py + dalvik_spec.py give instruction sizes/offsets',
@@ -142,6 +158,229 @@ def check(ctx, exp, dx, vms, case):
     return snap
 
 
+# ---------------------------------------------------------------------------------------------- call-graph histories
+# history = {'filters': [filt, ...], 'steps': [step, ...]}                                   (JSON-able, part of the case)
+#   filt  = {'classes': [name..]|None, 'names': [..]|None, 'descs': [..]|None, 'flag': word|None, 'no_isolated': bool}
+#           a None component is left at its default ('.*'); the others become '^(?:a|b)$' / '^.*\bword\b.*$', which mean
+#           the same under re.match / re.search / re.fullmatch, so the oracle is plain set membership on the caller
+#   step  = ['cg', i]            request get_call_graph(**filters[i]) and check the clause
+#           ['xref']             create_xref() (exactly once per history)
+#           ['mut', kind, g, k]  modify the graph returned by the g-th (mod count) earlier request the way a caller does
+#                                before plotting: kind 'node' / 'hub' / 'edge' / 'clear' / 'clear-edges' / 'add-edge'
+FLAG_WORDS = {0x1: 'public', 0x2: 'private', 0x8: 'static', 0x100: 'native', 0x400: 'abstract', 0x10000: 'constructor'}
+MUT_KINDS = ['node', 'hub', 'edge', 'clear', 'clear-edges', 'add-edge']
+
+
+def _alt(names):
+    return '^(?:%s)$' % '|'.join(re.escape(n) for n in names)
+
+
+def _kwargs(filt):
+    kw = {}
+    if filt.get('classes') is not None:
+        kw['classname'] = _alt(filt['classes'])
+    if filt.get('names') is not None:
+        kw['methodname'] = _alt(filt['names'])
+    if filt.get('descs') is not None:
+        kw['descriptor'] = _alt(filt['descs'])
+    if filt.get('flag') is not None:
+        kw['accessflags'] = r'^.*\b%s\b.*$' % re.escape(filt['flag'])
+    if filt.get('no_isolated'):
+        kw['no_isolated'] = True
+    return kw
+
+
+def _fkey(filt):
+    """two filters with the same key are the same request"""
+    return repr(sorted(_kwargs(filt).items()))
+
+
+def _passes(filt, mk, flags):
+    """does the method mk (access flag words `flags`) pass the filters? (oracle side: no regular expressions)"""
+    return ((filt.get('classes') is None or mk[0] in filt['classes']) and
+            (filt.get('names') is None or mk[1] in filt['names']) and
+            (filt.get('descs') is None or mk[2] in filt['descs']) and
+            (filt.get('flag') is None or filt['flag'] in flags.get(mk, ())))
+
+
+def flags_of(dexfiles):
+    """{mk: set of access-flag words} of the defined methods, from the writer's input (not from androguard)."""
+    out = {}
+    for df in dexfiles:
+        for c in df.classes:
+            for m in list(c.dmethods) + list(c.vmethods):
+                out[(c.name, m.name, A.desc(m.ret, m.params))] = {w for b, w in FLAG_WORDS.items() if m.access & b}
+    return out
+
+
+def _gkey(n):
+    return A.method_key(n)
+
+
+def _mutate(g, kind, k):
+    """what a caller does with a graph it received; deterministic in the graph's content (by method key)."""
+    nodes = sorted(g.nodes(), key=_gkey)
+    edges = sorted(g.edges(), key=lambda e: (_gkey(e[0]), _gkey(e[1])))
+    if kind == 'clear':
+        g.clear()
+    elif kind == 'clear-edges':
+        g.remove_edges_from(edges)
+    elif kind == 'node' and nodes:
+        g.remove_node(nodes[k % len(nodes)])
+    elif kind == 'hub' and nodes:
+        g.remove_node(max(nodes, key=lambda n: (g.degree(n), _gkey(n))))
+    elif kind == 'edge' and edges:
+        g.remove_edge(*edges[k % len(edges)])
+    elif kind == 'add-edge' and len(nodes) > 1:
+        free = [(a, b) for a in nodes for b in nodes if a is not b and not g.has_edge(a, b)]
+        if free:
+            g.add_edge(*free[k % len(free)])
+
+
+def run_history(ctx, exp, flags, vms, hist, case):
+    """Build the Analysis step by step, following hist; check the callgraph clause on every graph handed out.
+    -> dx after the whole history (create_xref done), or None when androguard raised."""
+    from androguard.core.analysis import analysis
+    try:
+        dx = analysis.Analysis()
+        for vm in vms:
+            dx.add(vm)
+    except Exception:
+        ctx.fail('exception:Analysis.add', case, traceback.format_exc())
+        return None
+    Ec = A.derive(exp)['cg']
+    Ed = A.derive(exp, array_defect=True)['cg'] if A.has_array_receiver(exp) else None
+    filters = hist['filters']
+    graphs = []                 # every graph handed out so far
+    xref_done = False
+    asked_before_xref = set()   # filter argument sets (_fkey) requested before create_xref()
+    asked = set()               # ... requested at all
+    touched = set()             # ... for which a graph handed out earlier was modified by the caller
+    owner = []                  # graphs[i] was requested with the filter arguments owner[i]
+    for si, step in enumerate(hist['steps']):
+        if step[0] == 'xref':
+            if xref_done:
+                continue
+            try:
+                dx.create_xref()
+            except Exception:
+                ctx.fail('exception:create_xref', case, traceback.format_exc())
+                return None
+            xref_done = True
+        elif step[0] == 'mut':
+            if graphs:
+                gi = step[2] % len(graphs)
+                _mutate(graphs[gi], step[1], step[3])
+                touched.add(owner[gi])
+        else:
+            filt = filters[step[1] % len(filters)]
+            fi = _fkey(filt)
+            try:
+                g = dx.get_call_graph(**_kwargs(filt))
+                obs = Counter((A.method_key(a), A.method_key(b)) for (a, b) in g.edges())
+                reported = None if xref_done else {(A.method_key(ma.get_method()), A.method_key(callee.get_method()))
+                                                   for ma in dx.get_methods() for (_, callee, _) in ma.get_xref_to()}
+            except Exception:
+                ctx.fail('exception:history:get_call_graph', dict(case, step=si), traceback.format_exc())
+                return None
+            shape = ('before-create_xref' if not xref_done else
+                     'after-caller-modified-graph' if fi in touched else
+                     'requested-before-create_xref' if fi in asked_before_xref else
+                     'repeated' if fi in asked else 'first')
+            name = 'history:callgraph:' + shape
+            hcase = dict(case, step=si, filter=filt, kwargs=_kwargs(filt))
+            if xref_done:
+                # the statement's clause against the model: (caller, callee) of every invoke whose caller passes the filters
+                want_c = {e for e in Ec if _passes(filt, e[0], flags)}
+                want_d = {e for e in Ed if _passes(filt, e[0], flags)} if Ed is not None else None
+                _clause(ctx, hcase, name, set(obs), want_c, want_d)
+                if want_c:
+                    ctx.count('history_graphs_with_edges')
+            else:
+                # nothing analysed yet: "an edge exactly where a callee is reported" against what the methods report now
+                _clause(ctx, hcase, name, set(obs), {e for e in reported if _passes(filt, e[0], flags)}, None)
+            ctx.count('history_graphs_checked')
+            graphs.append(g)
+            owner.append(fi)
+            asked.add(fi)
+            if not xref_done:
+                asked_before_xref.add(fi)
+    if not xref_done:
+        try:
+            dx.create_xref()
+        except Exception:
+            ctx.fail('exception:create_xref', case, traceback.format_exc())
+            return None
+    return dx
+
+
+def _hist_labels(hist):
+    labels = {'history'}
+    seen_x = False
+    pre, asked, touched, owner = set(), set(), set(), []
+    for step in hist['steps']:
+        if step[0] == 'xref':
+            seen_x = True
+        elif step[0] == 'mut':
+            if owner:
+                touched.add(owner[step[2] % len(owner)])
+                labels.add('history:mut:' + step[1])
+        else:
+            f = hist['filters'][step[1] % len(hist['filters'])]
+            fi = _fkey(f)
+            if any(f.get(k) is not None for k in ('classes', 'names', 'descs', 'flag')) or f.get('no_isolated'):
+                labels.add('history:filtered-request')
+            if seen_x:
+                if fi in touched:
+                    labels.add('history:request-after-caller-modified-graph')
+                if fi in pre:
+                    labels.add('history:request-before-and-after-create_xref')
+                if fi in asked:
+                    labels.add('history:repeated-request')
+            else:
+                pre.add(fi)
+            asked.add(fi)
+            owner.append(fi)
+    return labels
+
+
+@st.composite
+def histories(draw, model):
+    """history for one model: 1..2 filter sets (names taken from the model), requests before / after create_xref(), caller
+    modifications of graphs handed out earlier."""
+    callers = [(c['name'], m['name'], A.desc(m['ret'], m['params'])) for c in model['classes'] for m in c['methods'] if m['code']]
+    classes = sorted({c['name'] for c in model['classes']}) + ['Lext/E0;']
+
+    def some(pool):
+        pool = sorted(set(pool))
+        return st.lists(st.sampled_from(pool), min_size=1, max_size=2, unique=True) if pool else st.none()
+    plain = {'classes': None, 'names': None, 'descs': None, 'flag': None, 'no_isolated': False}
+    filt = st.one_of(
+        st.just(plain),
+        st.fixed_dictionaries({
+            'classes': st.one_of(st.none(), some(classes)),
+            'names': st.one_of(st.none(), st.none(), some([k[1] for k in callers])),
+            'descs': st.one_of(st.none(), st.none(), some([k[2] for k in callers])),
+            'flag': st.sampled_from([None, None, None, 'public', 'static', 'private', 'constructor']),
+            'no_isolated': st.booleans()}))
+    filters = draw(st.lists(filt, min_size=1, max_size=2))
+    nf = len(filters)
+    cg = st.tuples(st.just('cg'), st.integers(0, nf - 1)).map(list)
+    mut = st.tuples(st.just('mut'), st.sampled_from(MUT_KINDS), st.integers(0, 3), st.integers(0, 7)).map(list)
+    before = draw(st.lists(st.one_of(cg, cg, mut), min_size=0, max_size=2))
+    after = draw(st.lists(st.one_of(cg, cg, mut), min_size=1, max_size=5))
+    return {'filters': filters, 'steps': before + [['xref']] + after + [['cg', draw(st.integers(0, nf - 1))]]}
+
+
+@st.composite
+def cases(draw, array_invokes, share=4):
+    """(model, history or None); `share` in 10 cases carry a history."""
+    model = draw(X.models(profile='invokes', array_invokes=array_invokes))
+    if draw(st.integers(0, 9)) >= share:
+        return (model, None)
+    return (model, draw(histories(model)))
+
+
 # ---------------------------------------------------------------------------------------------- generated cases
 def _labels(model, exp):
     dm = exp['defined_methods']
@@ -177,23 +416,40 @@ def _labels(model, exp):
     return sorted(labels), (internal and external and repeated)
 
 
-def run_model(ctx, model, record=True):
+def run_model(ctx, model, record=True, history=None):
     model = X.normalize(model)
     case = {'mode': 'model', 'model': model}
+    if history is not None:
+        case['history'] = history
     exp = A.exp_from_model(model)
-    datas = [b for (b, _) in X.build(model)]
+    built = X.build(model)
+    datas = [b for (b, _) in built]
     labels, nt = _labels(model, exp)
     if record:
-        ctx.case(nontrivial=nt, key=repr(model), labels=labels,
+        if history is not None:
+            labels = sorted(set(labels) | _hist_labels(history))
+        ctx.case(nontrivial=nt, key=repr(model) + repr(history or ''), labels=labels,
                  sample={'classes': [c['name'] for c in model['classes']], 'ndex': model['ndex'],
                          'sites': {'%s->%s%s' % k: [[o, '%02x' % op, kd, t] for (o, op, kd, t) in v][:6]
-                                   for k, v in list(exp['sites'].items())[:2]}})
+                                   for k, v in list(exp['sites'].items())[:2]},
+                         'history': history})
     try:
-        dx, vms = A.analyse(datas)
+        if history is None:
+            dx, vms = A.analyse(datas)
+        else:
+            vms = [A.parse(d) for d in datas]
+            dx = run_history(ctx, exp, flags_of([df for (_, df) in built]), vms, history, case)
+            if dx is None:
+                return
     except A.AnalysisFailure as e:
         ctx.fail('exception:' + e.where, case, e.tb)
         return
     check(ctx, exp, dx, vms, case)
+
+
+def run_case(ctx, value, record=True):
+    """value = (model, history or None)"""
+    run_model(ctx, value[0], record, history=value[1])
 
 
 def run_file(ctx, name):
@@ -223,10 +479,66 @@ def run_file(ctx, name):
     check(ctx, exp, dx, vms, case)
 
 
-def _run_noarr(ctx, model, record=True):
+def _run_noarr(ctx, value, record=True):
     if record:
         ctx.count('excluded_by_known_finding:array-receiver')
-    run_model(ctx, model, record)
+    run_case(ctx, value, record)
+
+
+def _hist_candidates(hist):
+    """smaller histories (fewer steps, then fewer / plainer filters); the create_xref step stays."""
+    steps = hist['steps']
+    for i in range(len(steps)):
+        if steps[i][0] != 'xref':
+            yield {'filters': hist['filters'], 'steps': steps[:i] + steps[i + 1:]}
+    if len(hist['filters']) > 1:
+        for i in range(len(hist['filters'])):
+            yield {'filters': [hist['filters'][i]], 'steps': steps}
+    for i, f in enumerate(hist['filters']):
+        for k in ('classes', 'names', 'descs', 'flag', 'no_isolated'):
+            if f.get(k):
+                g = dict(f)
+                g[k] = False if k == 'no_isolated' else None
+                yield {'filters': hist['filters'][:i] + [g] + hist['filters'][i + 1:], 'steps': steps}
+
+
+def collect(ctx, strategy, run, n, salt, budget_s=4.0, skip=lambda bucket: False):
+    """A.collect for (model, history) values: no Hypothesis shrink phase; per new bucket the recorded model is reduced by
+    A.shrink_model with the history held fixed, then the history is reduced greedily, and the small case is recorded."""
+    import time
+    from vf.core import runner
+    before = set(ctx.failures)
+    runner.hyp_collect(ctx, strategy, lambda c, v: run(c, v), n, salt=salt, shrink=False)
+    for bucket in [b for b in list(ctx.failures) if b not in before and not skip(b)]:
+        size, case, msg = ctx.failures[bucket][0]
+        case = runner.unhex(case)
+        if not isinstance(case, dict) or case.get('mode') != 'model':
+            continue
+        hist = case.get('history')
+        small = A.shrink_model(ctx, lambda c, m, record=False: run(c, (m, hist), record), bucket,
+                               X.normalize(case['model']), budget_s)
+        if hist is not None:
+            def fails(h):
+                sub = runner.Ctx(ctx.prop, ctx.tier, ctx.seed, ctx.shard_index)
+                sub._shrink_bucket = bucket
+                try:
+                    run(sub, (small, h), False)
+                except runner._ShrinkHit:
+                    return True
+                return False
+            t0 = time.time()
+            progress = True
+            while progress and time.time() - t0 < budget_s:
+                progress = False
+                for cand in _hist_candidates(hist):
+                    if time.time() - t0 > budget_s:
+                        break
+                    if fails(cand):
+                        hist, progress = cand, True
+                        break
+        ev, nt = ctx.evaluations, set(ctx.nontrivial)
+        run(ctx, (small, hist), False)
+        ctx.evaluations, ctx.nontrivial = ev, nt
 
 
 def shards(tier, seed):
@@ -238,11 +550,11 @@ def shards(tier, seed):
 def run_shard(ctx, shard):
     n = 800 if ctx.tier == 'quick' else 2500
     if shard[0] == 'gen':
-        A.collect(ctx, X.models(profile='invokes', array_invokes=False), _run_noarr, n, salt=shard[1])
+        collect(ctx, cases(array_invokes=False), _run_noarr, n, salt=shard[1])
     elif shard[0] == 'gen-arrays':
         # array receivers kept; mismatches of the known shape are not reduced (the finding has its probe cases)
-        A.collect(ctx, X.models(profile='invokes', array_invokes=True), run_model, n, salt=100 + shard[1],
-                  skip=lambda b: b.endswith(':array-receiver'))
+        collect(ctx, cases(array_invokes=True), run_case, n, salt=100 + shard[1],
+                skip=lambda b: b.endswith(':array-receiver'))
     else:
         for name in shard[1]:
             run_file(ctx, name)
@@ -250,7 +562,7 @@ def run_shard(ctx, shard):
 
 def replay(ctx, case):
     if case['mode'] == 'model':
-        run_model(ctx, case['model'], record=False)
+        run_model(ctx, case['model'], record=False, history=case.get('history'))
     else:
         run_file(ctx, case['name'])
 
